@@ -1,13 +1,14 @@
 import NanoVerif.Model.ViewBox
 import NanoVerif.Proofs.AffineLemmas
 import NanoVerif.Props.C16
+import NanoVerif.Proofs.PaintedLayers
 /-
 C01 — COLRv1 glyph paints the same picture as its source SVG.
 What is proved here (for all inputs): the placement affine is the one the property states
 (C01.1), the advance rule (C01.b), and — imported from C16 — that gradient geometry mapped through
 the placement / reuse transforms paints the same colours and that every transform encoding denotes its
-affine.  What is NOT proved: the end-to-end pipeline theorem (z-order of `_painted_layers`, reuse
-migration); those parts are covered by the correspondence + point-sampling renderer only.
+affine; and the z-order / group-opacity theorem for `_painted_layers` (`paintedLayers_eq_spec`).
+What is NOT proved: the end-to-end composition through picosvg / ufo2ft; reuse migration is C06.
 -/
 open NanoVerif
 namespace NanoVerif.C01
@@ -58,6 +59,31 @@ theorem advance_zero_viewbox (vb : Rect) (asc desc width : Int) (hh : vb.h ≠ 0
   have r0 : roundHalfEven 0 = 0 := by decide +kernel
   simp only [advanceWidth, hh, hw, ↓reduceIte, mul_zero, zero_div, r0]
   rw [max_eq_left h0]
+
+/-- **C01 (c) — z-order and group opacity.**  For every picosvg-normal body (any number of shapes, any
+nesting depth and width of opacity groups) the loop of `_painted_layers` returns exactly the structural
+translation: one paint per element, in document (z) order, each `<g opacity>` as a composite over the
+ordered list of its children's paints. Nothing is dropped, duplicated or reordered. -/
+theorem paintedLayers_eq_spec (body : List SvgNode) (hwf : WFList body) :
+    paintedLayers body = .ok (SvgNode.specList body) := by
+  unfold paintedLayers docTokens
+  have hrev : ((0, Tok.root) :: (1, Tok.defs) :: SvgNode.preorderList 1 body).reverse =
+      (SvgNode.preorderList 1 body).reverse ++ [(1, Tok.defs), (0, Tok.root)] := by simp
+  rw [hrev, plRun_append]
+  by_cases hb : body = []
+  · subst hb
+    simp [SvgNode.preorderList, plRun, plStep, SvgNode.specList]
+  · rw [run_list body 1 false [] (le_refl _) hwf (by simp) hb]
+    simp [plRun, plStep, pushAt, extendTo, appendListAt]
+
+/-- the assertions are live: a group with a single child is rejected -/
+example : paintedLayersFails [.group (1/2) true [.shape 0]] = true := by decide +kernel
+/-- … and so is an opaque group, and one with extra attributes -/
+example : paintedLayersFails [.group 1 true [.shape 0, .shape 1]] = true := by decide +kernel
+example : paintedLayersFails [.group (1/2) false [.shape 0, .shape 1]] = true := by decide +kernel
+/-- non-vacuity: a nested document -/
+example : paintedLayersIs [.shape 0, .group (1/2) true [.shape 1, .group (1/4) true [.shape 2, .shape 3]], .shape 4]
+    [.glyph 0, .composite (1/2) [.glyph 1, .composite (1/4) [.glyph 2, .glyph 3]], .glyph 4] = true := by decide +kernel
 
 /-! non-vacuity -/
 example : mapViewboxToFontSpace ⟨0, 0, 100, 100⟩ 950 (-250) 1275 Aff.id = .ok ⟨12, 0, 0, -12, 75/2, 950⟩ := by decide +kernel
